@@ -232,8 +232,8 @@ func genTok(optionMode string) func(ctx *Ctx) {
 					}
 					return out
 				}
-				out := []int{0, 127}
-				for i := 0; i < 6; i++ {
+				out := []int{0, 127, 6, 3, 2 | 4 | 64}
+				for i := 0; i < 4; i++ {
 					out = append(out, ctx.Rnd.Intn(128))
 				}
 				return out
@@ -275,7 +275,7 @@ func genTok(optionMode string) func(ctx *Ctx) {
 		if optionMode == "all" {
 			n = ctx.N / 2
 		}
-		fragments := []string{"<=", "<>", "{{", "}}", "{{{", "}}}", "/*", "*/", "//", "1.5e+3", "-1", "'a''b'", "\"x\"", "AND", "not", "\r\n", "\n\r", "1e", "1.", "-.", "#c", "a-b", "1e5", ".5", "{{#if x}}", "{{/if}}", " \t "}
+		fragments := []string{" /*c*/ ", " # c\n ", " 😀 ", "\t/**/ ", " \r\n ", "<=", "<>", "{{", "}}", "{{{", "}}}", "/*", "*/", "//", "1.5e+3", "-1", "'a''b'", "\"x\"", "AND", "not", "\r\n", "\n\r", "1e", "1.", "-.", "#c", "a-b", "1e5", ".5", "{{#if x}}", "{{/if}}", " \t "}
 		for i := 0; i < n; i++ {
 			ln := 1 + ctx.Rnd.Intn(14)
 			var text []rune
